@@ -41,7 +41,7 @@ void h_run(Case &c) {
 
   int r = apply_spec_and_load(c, t, sp);
   c.cls(sp.is_native ? "source:this-machine" : use_gx ? "source:generated-xml" : sp.is_xml ? "source:xml" : "source:synthetic");
-  if (use_gx) { CHECK(c, r == 0, "genxml_load", "a consistent generated document does not load with this configuration (errno %d)", errno); if (gx.asym) c.cls("genxml:asymmetric"); if (!gx.has_allowed_attrs) c.cls("genxml:no-allowed-attrs"); if (!gx.offline_c.empty() || !gx.offline_n.empty()) c.cls("genxml:offline"); if (gx.multi_numa_obj) c.cls("genxml:several-numa-per-object"); }
+  if (use_gx) { CHECK(c, r == 0, "genxml_load", "a consistent generated document does not load with this configuration (errno %d)", errno); if (gx.asym) c.cls("genxml:asymmetric"); if (gx.interleaved) c.cls("genxml:interleaved-indexes"); if (!gx.has_allowed_attrs) c.cls("genxml:no-allowed-attrs"); if (!gx.offline_c.empty() || !gx.offline_n.empty()) c.cls("genxml:offline"); if (gx.multi_numa_obj) c.cls("genxml:several-numa-per-object"); }
   if (r == 0) {
     c.cls("load:ok");
     require_wf(c, t, "after load");
